@@ -24,7 +24,14 @@ state-passing style.  Reuses the expression / statement translation of `translat
                      `for attr in Cls.REQ_ATTR: if getattr(self, attr) is None: raise …` and
                      `for attr in Cls.REQ_ATTR: if getattr(self, attr) != getattr(other, attr): return False`.
                      `raise E("…".format(e, …))` with int-valued arguments (formatting an int cannot raise).
-  Everything else stays a `TranslationError` naming the construct.
+  * also:            alias properties (`@property def p(self): return self._x`, setter `self._x = v`) resolved to the
+                     attribute; constants of OTHER classes of the module (`Pcap.RECORD_HEADER_FORMAT`); `struct.calcsize(FMT)`;
+                     `self._names = Cls.NAMES` (a constant tuple of attribute names assigned only in `__init__`) as the
+                     iterable of an unrolled loop, and literal tuples of names; `type(x) != int`; `b[lo:-K]`,
+                     `unpack_from(fmt, b, -K)` (counted from the end); bool operands of arithmetic, `int(bool)`, `bool(int)`;
+                     `logger.warning(CONSTANT)` (module-level `logging.getLogger`) as a no-op; f-string / `.format` exception
+                     messages over ints; calls of module functions translated by translate.py (`uses=` in the table).
+  Everything else stays a `TranslationError` naming the construct (tools/srctie_methods_negative.py holds 28 cases).
 
 Output: `lean/Acra/Gen/Src/Cls/<Class>.lean` (namespace `Acra.Gen.Src.Cls.<Class>`), table `METHODS` in
 `harness/extract_tables/srctie_methods.py`, tie theorems `Acra.Props.Cxx.src_<Class>_<method>` in
